@@ -450,6 +450,7 @@ class InternationalizationExtension(Extension):
         )
         node.set_lineno(lineno)
         if plural_expr_assignment is not None:
+            plural_expr_assignment.set_lineno(lineno)
             return [plural_expr_assignment, node]
         else:
             return node
